@@ -10,13 +10,15 @@ trap 'git -C /repo worktree remove --force $wt >/dev/null 2>&1' EXIT
 CM="-G Ninja -DCMAKE_BUILD_TYPE=RelWithDebInfo -DFETCHCONTENT_TRY_FIND_PACKAGE_MODE=ALWAYS"
 F8="-G Ninja -DCMAKE_BUILD_TYPE= -DCMAKE_CXX_FLAGS=-O1 -DFETCHCONTENT_TRY_FIND_PACKAGE_MODE=ALWAYS -DFOONATHAN_MEMORY_DEBUG_FILL=ON -DFOONATHAN_MEMORY_DEBUG_FENCE=8 -DFOONATHAN_MEMORY_DEBUG_LEAK_CHECK=ON -DFOONATHAN_MEMORY_DEBUG_POINTER_CHECK=ON -DFOONATHAN_MEMORY_BUILD_TESTS=OFF -DFOONATHAN_MEMORY_BUILD_EXAMPLES=OFF -DFOONATHAN_MEMORY_BUILD_TOOLS=OFF"
 DD="-G Ninja -DCMAKE_BUILD_TYPE= -DCMAKE_CXX_FLAGS=-O1 -DFETCHCONTENT_TRY_FIND_PACKAGE_MODE=ALWAYS -DFOONATHAN_MEMORY_DEBUG_FILL=ON -DFOONATHAN_MEMORY_DEBUG_LEAK_CHECK=ON -DFOONATHAN_MEMORY_DEBUG_POINTER_CHECK=ON -DFOONATHAN_MEMORY_DEBUG_DOUBLE_DEALLOC_CHECK=ON -DFOONATHAN_MEMORY_BUILD_TESTS=OFF -DFOONATHAN_MEMORY_BUILD_EXAMPLES=OFF -DFOONATHAN_MEMORY_BUILD_TOOLS=OFF"
+REL="-G Ninja -DCMAKE_BUILD_TYPE=Release -DFETCHCONTENT_TRY_FIND_PACKAGE_MODE=ALWAYS -DFOONATHAN_MEMORY_BUILD_TESTS=OFF -DFOONATHAN_MEMORY_BUILD_EXAMPLES=OFF -DFOONATHAN_MEMORY_BUILD_TOOLS=OFF"
 build() {
   cmake -S $wt -B $wt/_build $CM >/dev/null 2>&1 && cmake --build $wt/_build -j8 >/dev/null 2>&1 || return 1
   if [ $cfg = f8 ]; then cmake -S $wt -B $wt/_build_f8 $F8 >/dev/null 2>&1 && cmake --build $wt/_build_f8 -j8 >/dev/null 2>&1 || return 1; fi
   if [ $cfg = dd ]; then cmake -S $wt -B $wt/_build_dd $DD >/dev/null 2>&1 && cmake --build $wt/_build_dd -j8 >/dev/null 2>&1 || return 1; fi
+  if [ $cfg = rel ]; then cmake -S $wt -B $wt/_build_rel $REL >/dev/null 2>&1 && cmake --build $wt/_build_rel -j8 >/dev/null 2>&1 || return 1; fi
 }
 demo() {
-  b=$wt/_build; [ $cfg = f8 ] && b=$wt/_build_f8; [ $cfg = dd ] && b=$wt/_build_dd
+  b=$wt/_build; [ $cfg = f8 ] && b=$wt/_build_f8; [ $cfg = dd ] && b=$wt/_build_dd; [ $cfg = rel ] && b=$wt/_build_rel
   g++ -std=c++17 -O1 -g -I $wt/include -I $b/src $d/demo.cpp $b/src/libfoonathan_memory-0.7.4*.a -pthread -o $wt/demo_bin >/dev/null 2>$wt/demo_cc.log || { echo "compile-failed"; return; }
   (cd $wt && timeout 120 ./demo_bin >/dev/null 2>&1); echo "exit=$?"
 }
@@ -24,7 +26,7 @@ git -C $wt apply $patch || { echo "{\"applies\": false}" > $d/confirm.json; exit
 build; built=$?
 tests=$(ctest --test-dir $wt/_build -j8 --timeout 900 2>&1 | grep -E "tests passed|tests failed" | head -1)
 with=$(demo)
-git -C $wt checkout -- . ; rm -rf $wt/_build $wt/_build_f8 $wt/_build_dd; build
+git -C $wt checkout -- . ; rm -rf $wt/_build $wt/_build_f8 $wt/_build_dd $wt/_build_rel; build
 without=$(demo)
 printf '{"applies": true, "builds_with_patch": %s, "suite_with_patch": "%s", "demo_with_patch": "%s", "demo_without_patch": "%s", "demo_config": "%s", "repo_head": "%s"}\n' \
   $([ $built = 0 ] && echo true || echo false) "$tests" "$with" "$without" "$cfg" "$(git -C /repo rev-parse --short HEAD)" > $d/confirm.json
